@@ -77,6 +77,39 @@ let () =
       (match precompute (z p) (z q) with
        | None -> Printf.printf "F %s NOKEY\n" id
        | Some k -> Printf.printf "F %s %s\n" id (opt (decrypt_checked k (z cn) (z c))))
+    | ["C"; id; p; q; op; items] ->
+      (* lower layers: modular.OddPrimeSquareFactors / OddPrimeFactors / crt.Params for arbitrary
+         (small, unbalanced) odd primes; only the CRT constants are needed *)
+      let p = z p and q = z q in
+      let ( * ) = Big_int_Z.mult_big_int and ( % ) = Big_int_Z.mod_big_int and ( - ) = Big_int_Z.sub_big_int in
+      let some = function Some v -> v | None -> Big_int_Z.zero_big_int in
+      let one = Big_int_Z.unit_big_int and zero = Big_int_Z.zero_big_int in
+      let k = { sk_p = p; sk_q = q; sk_qinv = some (modinv q p);
+                sk_q2inv = some (modinv ((q * q) % (p * p)) (p * p));
+                sk_negqinv_p = zero; sk_negpinv_q = zero; sk_qinv_phip = zero; sk_pinv_phiq = zero;
+                sk_ep2 = p * ((p * q) % (p - one)); sk_eq2 = q * ((p * q) % (q - one)) } in
+      let pair s = match String.split_on_char ':' s with [a; b] -> (z a, z b) | _ -> failwith ("bad pair " ^ s) in
+      let f = match op with
+        | "rec2" -> (fun s -> let (a, b) = pair s in h (recombine_N2 k a b))
+        | "rec1" -> (fun s -> let (a, b) = pair s in h (recombine_N k a b))
+        | "exp2" -> (fun s -> let (a, b) = pair s in h (sk_modexp2 k a b))
+        | "exp1" -> (fun s -> let (a, b) = pair s in h (sk_modexp1 k a b))
+        | "mul1" -> (fun s -> let (a, b) = pair s in h (sk_nonce_mul k a b))
+        | "inv2" -> (fun s -> opt (sk_modinv2 k (z s)))
+        | "inv1" -> (fun s -> opt (sk_modinv1 k (z s)))
+        | "ton" -> (fun s -> h (sk_noise k (z s)))
+        | _ -> failwith ("bad C op " ^ line) in
+      Printf.printf "C %s %s\n" id (String.concat ";" (List.map f (split_on ',' items)))
+    | ["R"; id; pm; qm; items] ->
+      (* crt.NewParamsExtended(P, Q).Recombine for arbitrary coprime moduli *)
+      let pm = z pm and qm = z qm in
+      (match modinv qm pm with
+       | None -> Printf.printf "R %s NOINV\n" id
+       | Some qi ->
+         let f s = match String.split_on_char ':' s with
+           | [a; b] -> h (recombine pm qm qi (z a) (z b))
+           | _ -> failwith ("bad pair " ^ s) in
+         Printf.printf "R %s %s\n" id (String.concat ";" (List.map f (split_on ',' items))))
     | ["T"; id; n; m; r] ->
       Printf.printf "T %s %s\n" id (h (textbook (z n) (z m) (z r)))
     | "Q" :: id :: n :: op :: args ->
